@@ -194,6 +194,13 @@ FILTERS = [
      lambda h, a: h['master_table_number'] == 0 and h['originating_subcentre'] != a['sub']),
     ('${%%1.section_length} > %(l1)d', lambda h, a: h['1.section_length'] > a['l1']),
     ('${%%3.section_length} >= %(l3)d', lambda h, a: h['3.section_length'] >= a['l3']),
+    # a filter is a Python expression: builtins other than comparisons are fair game
+    ('${%%edition} in range(3, 5)', lambda h, a: h['edition'] in range(3, 5)),
+    ('len(str(${%%length})) >= 3', lambda h, a: len(str(h['length'])) >= 3),
+    ('sorted([${%%n_subsets}, %(ns)d])[0] == %(ns)d', lambda h, a: sorted([h['n_subsets'], a['ns']])[0] == a['ns']),
+    ('isinstance(${%%n_subsets}, int) and divmod(${%%length}, 2)[1] == 0', lambda h, a: h['length'] % 2 == 0),
+    ('${%%data_category} in set([%(cat)d, 250])', lambda h, a: h['data_category'] in (a['cat'], 250)),
+    ('any(x == ${%%edition} for x in (2, 4))', lambda h, a: h['edition'] in (2, 4)),
 ]
 
 
@@ -325,6 +332,7 @@ def _gen_plan(family, rng, pool, tier):
     # synthetic table-definition messages (over ids nobody else uses) are ordinary messages for a
     # metadata-only decode or scan: their data section must not be read either
     synth_defs = [e for e in pool if 'D' in e['cls'] and e['src'] == 'synth']
+    large = [e for e in pool if 'L' in e['cls']]       # sections 0-3 beyond 64 KiB
     if family == 'c11':
         n = rng.choice([0, 1, 1, 2, 2, 3, 3, 4, 5, 6, 8])
         bias = rng.random()
@@ -341,7 +349,11 @@ def _gen_plan(family, rng, pool, tier):
             defs = [e for e in pool if 'D' in e['cls'] and e['src'] == 'synth']
             if defs:
                 items.insert(rng.randint(0, len(items)), _item(rng.choice(defs)))
+        if large and rng.random() < 0.04:
+            items.insert(rng.randint(0, len(items)), _item(rng.choice(large)))
         seps = [gen_separator(rng)[1].hex() for _ in range(len(items) + 1)]
+        if not items and rng.random() < 0.5:
+            seps = ['']          # the stream of no messages and no octets at all (a file of length zero)
         front = rng.choice(['api', 'api', 'api', 'cli-decode', 'cli-info-m', 'cli-info-c', 'cli-split'])
         mode = 'info' if front in ('cli-info-m', 'cli-info-c', 'cli-split') else \
             ('full' if front == 'cli-decode' else rng.choice(MODES))
@@ -505,6 +517,8 @@ def _gen_plan(family, rng, pool, tier):
 
     if family == 'c17':
         e = rng.choice(synth_defs) if (synth_defs and rng.random() < 0.1) else rng.choice([x for x in pool if small(x)])
+        if large and rng.random() < 0.04:
+            e = rng.choice(large)
         raw = bytes.fromhex(e['hex'])
         fault = gen_data_damage(rng, raw) if rng.random() < 0.85 else None
         it = _item(e, fault)
@@ -537,6 +551,8 @@ def _gen_plan(family, rng, pool, tier):
         picked = _pick(rng, pool, n, (lambda x: small(x) and ('B' in x['cls'] or rng.random() < 0.3)) if emb else small)
         if synth_defs and rng.random() < 0.3:
             picked.insert(rng.randint(0, len(picked)), rng.choice(synth_defs))
+        if large and rng.random() < 0.06:
+            picked.insert(rng.randint(0, len(picked)), rng.choice(large))
         for e in picked:
             raw = bytes.fromhex(e['hex'])
             fault = gen_data_damage(rng, raw) if (rng.random() < 0.6 and raw.find(b'BUFR', 1) < 0) else None
